@@ -283,6 +283,26 @@ func (c *Collector) Fail(check, sig, msg string, cas interface{}) bool {
 	return false
 }
 
+// FailFirst is Fail for enumerations: only the first failing case of each
+// (check, sig) is kept and written; later ones are only counted. It returns
+// (known, first): first is true when this was the first failure of its kind.
+func (c *Collector) FailFirst(check, sig, msg string, cas interface{}) (known, first bool) {
+	c.mu.Lock()
+	if kf, ok := c.open[sig]; ok && sig != "" {
+		c.rep.Known[kf.ID]++
+		c.mu.Unlock()
+		return true, false
+	}
+	key := "fail:" + check + "/" + sig
+	c.rep.Classes[key]++
+	n := c.rep.Classes[key]
+	c.mu.Unlock()
+	if n > 1 {
+		return false, false
+	}
+	return c.Fail(check+"#"+sanitize(sig), sig, msg, cas), true
+}
+
 func sanitize(s string) string {
 	var b strings.Builder
 	for _, r := range s {
@@ -412,7 +432,11 @@ func Replay(path string) (doc ReplayDoc, sig string, err error, found bool) {
 	if jerr := json.Unmarshal(b, &doc); jerr != nil {
 		return doc, "", jerr, false
 	}
-	f, ok := replayers[doc.Property+"/"+doc.Check]
+	chk := doc.Check
+	if i := strings.Index(chk, "#"); i >= 0 {
+		chk = chk[:i] // FailFirst appends "#<sig>" to keep one file per signature
+	}
+	f, ok := replayers[doc.Property+"/"+chk]
 	if !ok {
 		return doc, "", fmt.Errorf("no replayer registered for %s/%s", doc.Property, doc.Check), false
 	}
